@@ -11,18 +11,26 @@ MANIFEST = dict(
          "the modelled kernels) is explored: every public entry point (lex_source, prql_to_tokens, prql_to_pl, pl_to_prql, pl_to_rq, "
          "compile for all 12 dialects, the staged JSON chain, json::to_pl / to_rq -> rq_to_sql) is run in child processes (catch_unwind per "
          "request, process death and timeouts detected) on all short strings over a significant alphabet, token-level mutants of the "
-         "integration-test and book programs, stress families (nesting depth up to 10^4, long tuples / chains / pipelines) and mutated "
-         "PL / RQ JSON; wall time is measured on doubling families.",
+         "integration-test and book programs, stress families (nesting depth up to 10^4, long tuples / chains / pipelines), a SIZE axis (one "
+         "token of every kind - identifier, string / raw / f- / s-string text, number, date, comment, target name ... - of 1 .. 70000 "
+         "characters, straddling the powers of two, the u16 range and the formatter's line widths, in every position the formatter and the "
+         "back-end carry it through), a BYTE-OFFSET axis (2-, 3-, 4-byte, combining and case-changing characters at byte offsets 0..12 of "
+         "every text the compiler inspects by bytes: s-string relations and expressions, f-strings, literals, identifiers, comments, "
+         "target names, date / number literals, texts next to an error span; all 12 dialects in rotation, with and without SQL "
+         "formatting) and mutated PL / RQ JSON; CPU time is measured on the doubling families and the size schedules.",
     note="runtime behaviour (stack exhaustion, wall time) cannot be carried by the model; the exploration bounds are reported in the "
          "evidence. Every panic / abort class reachable by the generators on the unchanged tree is listed in known_findings.json by the "
-         "innermost prqlc function on the panicking stack; a panic at any other site is a violation.",
+         "innermost prqlc function on the panicking stack plus the kinds of panic message found there (`message_kinds`); a panic at any "
+         "other site, or of another kind at a listed site (id gets the suffix :<kind>), is a violation. The listed super-polynomial "
+         "findings are exponential in nesting depth: a run that does not come back on an input nested less than 12 deep is a different "
+         "class (suffix :flat-input).",
     technique="Lean 4 proof of the modelled kernel (error composition) + sharded fuzzing of all entry points with crash/timeout detection and doubling-family timing",
     ref="4/C12")
 
 DIALECTS = ["ansi", "bigquery", "clickhouse", "duckdb", "generic", "glaredb", "mssql", "mysql", "postgres", "redshift", "sqlite", "snowflake"]
 SRC_OPS = [("lex", "src"), ("tokens", "src"), ("pl", "prql"), ("fmt", "prql"), ("rq", "prql"), ("compile", "prql"), ("staged", "prql")]
 STAGE_OF = {"lex": "lexer", "tokens": "lexer", "pl": "parser", "fmt": "formatter", "rq": "resolver", "compile": "sql", "staged": "staged",
-            "pl_json_to_sql": "pl-json", "rq_json_to_sql": "rq-json"}
+            "pl_json_to_sql": "pl-json", "rq_json_to_sql": "rq-json", "target_from_str": "target"}
 ALPHABET = ["a", "1", "\"", "'", "`", "{", "}", "(", ")", "[", "]", "|", ",", ".", "=", "-", "+", "\n", " ", "#", "\\", "@", ":", "!", "é", "s", "_", "?", "*", ">"]
 
 
@@ -56,6 +64,63 @@ def panic_class(a):
     return "panic:" + f
 
 
+MSG_KINDS = [("char-boundary", r"is not a char boundary"), ("arith-overflow", r"attempt to .* with overflow|attempt to divide by zero|attempt to negate"),
+             ("span-out-of-bounds", r"is out of bounds of the source"),
+             ("index", r"index out of bounds|out of range for slice|removal index|insertion index|range (start|end) index|slice index starts|byte index \d+ is out of bounds|swap_remove index"),
+             ("unwrap-none", r"Option::unwrap\(\)` on a `None`"), ("unwrap-err", r"Result::unwrap\(\)` on an `Err`|unwrap_err\(\)` on an `Ok`"),
+             ("missing-key", r"no entry found for key"), ("assert", r"^assertion"), ("todo", r"not yet implemented|not implemented"),
+             ("unreachable", r"entered unreachable code"), ("borrow", r"already (mutably )?borrowed|poisoned"), ("alloc", r"capacity overflow|memory allocation")]
+
+
+def msg_kind(m):
+    """coarse kind of a panic message; texts written by prqlc itself (expect / panic! / assert messages) are `other`"""
+    for k, pat in MSG_KINDS:
+        if re.search(pat, m or ""):
+            return k
+    return "other"
+
+
+# Functions in which one panic site was FIXED and another one is still open: the function name alone would excuse the fixed site again,
+# so the class id of a panic there carries the text of the panicking source line (stable when lines move, unlike the line number).
+SITE_REFINED = {"panic:prqlc::sql::operators::translate_operator"}
+
+
+def site_slug(at):
+    m = re.match(r"^(.*):(\d+):\d+$", at or "")
+    try:
+        line = open(m.group(1), encoding="utf-8").read().split("\n")[int(m.group(2)) - 1]
+    except Exception:
+        return "unknown"
+    return re.sub(r"[^A-Za-z0-9]+", "_", line.strip()).strip("_")[:60]
+
+
+def bracket_depth(src):
+    """deepest nesting of ( [ { in the source, text of quoted strings skipped (crude scanner: no escapes)"""
+    d = best = 0
+    q = None
+    for c in src or "":
+        if q:
+            if c == q:
+                q = None
+        elif c in "\"'`":
+            q = c
+        elif c in "([{":
+            d += 1
+            best = max(best, d)
+        elif c in ")]}":
+            d = max(0, d - 1)
+    return best
+
+
+NEST_MIN = 12      # the listed super-polynomial findings (formatter, parser) need nesting: 2^depth only costs seconds from depth ~16 on
+
+
+def slow_class(stage, src):
+    """class of a timeout / super-polynomial run. The listed findings `superpolynomial-time:<stage>` are exponential in the NESTING
+    depth; an input that is not nested (a long token, a long flat list) and still does not come back is a different defect."""
+    return f"superpolynomial-time:{stage}" + ("" if bracket_depth(src) >= NEST_MIN else ":flat-input")
+
+
 def _proc_cpu(pid):
     try:
         f = open(f"/proc/{pid}/stat").read().rsplit(")", 1)[1].split()
@@ -71,9 +136,18 @@ def run_single(req, timeout):
     r = {k: v for k, v in req.items() if not k.startswith("_")}
     r["_time"] = True
     p = subprocess.Popen([vlib.VH], stdin=subprocess.PIPE, stdout=subprocess.PIPE, stderr=subprocess.PIPE, env=vlib.env)
-    try:
-        out, err = p.communicate((json.dumps(r) + "\n").encode("utf-8"), timeout=timeout)
-    except subprocess.TimeoutExpired:
+    data, out, tries = (json.dumps(r) + "\n").encode("utf-8"), None, 0
+    while out is None:
+        try:
+            out, err = p.communicate(data, timeout=timeout)
+        except subprocess.TimeoutExpired:
+            # on a loaded machine the wall-clock limit can pass before the process had 2.5 s of CPU (the growth rule needs > 2 s): wait on
+            data, tries = None, tries + 1
+            cpu = _proc_cpu(p.pid)
+            if tries < 4 and cpu is not None and cpu < 2.5:
+                continue
+            break
+    if out is None:
         cpu = _proc_cpu(p.pid)
         p.kill()
         try:
@@ -124,7 +198,7 @@ def prefetch_stages(reqs, timeout):
     import concurrent.futures
     todo = {}
     for req in reqs:
-        if req["op"] in ("pl_json_to_sql", "rq_json_to_sql"):
+        if req["op"] in ("pl_json_to_sql", "rq_json_to_sql", "target_from_str"):
             continue
         src = req.get("prql") if "prql" in req else req.get("src")
         for r in ({"op": "lex", "src": src}, {"op": "pl", "prql": src}):
@@ -137,9 +211,9 @@ def prefetch_stages(reqs, timeout):
 def _locate_stage(req, timeout):
     """for a source request that crashed / timed out: the first stage of lex -> pl -> (fmt) -> rq -> compile that does so alone"""
     op = req["op"]
-    if op in ("pl_json_to_sql", "rq_json_to_sql"):
+    if op in ("pl_json_to_sql", "rq_json_to_sql", "target_from_str"):
         a, _ = run_single(req, timeout)
-        return STAGE_OF[op], a
+        return (STAGE_OF[op] if "crash" in a else None), a
     src = req.get("prql") if "prql" in req else req.get("src")
     chain = [("lex", "src"), ("pl", "prql")] + ([("fmt", "prql")] if op == "fmt" else [("rq", "prql")]) + ([] if op in ("fmt", "rq", "pl", "lex", "tokens") else [(op, "prql")])
     if op in ("lex", "tokens"):
@@ -149,8 +223,9 @@ def _locate_stage(req, timeout):
     last = None
     for o, k in chain:
         r = {"op": o, k: src}
-        if "target" in req and o in ("compile", "staged"):
-            r["target"] = req["target"]
+        for x in ("target", "format", "signature"):
+            if x in req and o in ("compile", "staged"):
+                r[x] = req[x]
         a = single_memo(r, timeout)
         last = a
         if "crash" in a:
@@ -166,12 +241,30 @@ class Explorer:
         self.ctx = ctx
         self.classes = {}          # class id -> count
         self.witness = {}          # class id -> smallest request
+        self.messages = {}         # class id -> normalised panic message -> count
         self.n_req = 0
         self.outcomes = {"value": 0, "errors": 0, "panic": 0, "crash": 0}
         self.single_timeout = 60 if ctx.tier == "thorough" else 15
+        # a listed class `panic:<fn>` excuses the KINDS of panic that were found in that function, not whatever panics there next:
+        # kinds = field `message_kinds` of the finding (else the kind of the message quoted in its `what`)
+        self.kinds = {fid: set(f.get("message_kinds") or [msg_kind(f.get("what", "").split("): ", 1)[-1])])
+                      for fid, f in ctx.known.items() if fid.startswith("panic:")}
+
+    def pclass(self, a, op=None):
+        cid = panic_class(a) + (":json" if op in ("pl_json_to_sql", "rq_json_to_sql") else "")
+        if cid in SITE_REFINED:
+            cid += ":site:" + site_slug(a.get("at"))
+        k = msg_kind(a.get("panic"))
+        if cid in self.kinds and k not in self.kinds[cid]:
+            cid += ":" + k
+        return cid
 
     def record_failure(self, cid, what, req, ans):
         self.classes[cid] = self.classes.get(cid, 0) + 1
+        if "panic" in ans:
+            mk = self.messages.setdefault(cid, {})
+            k = norm_msg(ans["panic"])
+            mk[k] = mk.get(k, 0) + 1
         size = len(json.dumps(req))
         if cid not in self.witness or size < self.witness[cid][0]:
             self.witness[cid] = (size, req, ans)
@@ -195,7 +288,7 @@ class Explorer:
                 a = {"crash": "no-answer"}
             if "panic" in a:
                 self.outcomes["panic"] += 1
-                cid = panic_class(a) + (":json" if op in ("pl_json_to_sql", "rq_json_to_sql") else "")   # JSON documents reach code paths sources cannot
+                cid = self.pclass(a, op)   # JSON documents reach code paths sources cannot
                 self.ctx.case(key)
                 self.record_failure(cid, f"{op} panics: {a['panic'][:160]} (at {a.get('at')}, in {a.get('fn')})", r, a)
             elif "crash" in a:
@@ -210,7 +303,7 @@ class Explorer:
                 inp = r.get("prql") or r.get("src") or ""
                 if kind == "stack-overflow" and inp and len(inp) < 300:
                     kind = "infinite-recursion"      # a tiny program cannot be deep: the recursion does not depend on the input size
-                cid = f"superpolynomial-time:{stage}" if kind == "timeout" else f"{kind}:{stage}"
+                cid = slow_class(stage, inp) if kind == "timeout" else f"{kind}:{stage}"
                 self.record_failure(cid, f"{op}: process {kind} in stage {stage} ({a2.get('stderr', '')[:120]})", r, {**a, **a2})
             elif "garbled" in a and str(a["garbled"]).startswith("{"):
                 # an answer nested too deeply for python's json module: a value
@@ -265,7 +358,8 @@ DIRECTED = [
     "from t | select {a = a}", "from t | derive {a = b, b = a}",
     "from t | loop (loop (take 1))", "from t | loop (filter a > 0 | loop (derive b = a))",
     "*", "let x = *", "from t | select t.*.*", "from t | group a (-> take 1)", "from t | filter (a | -> in [1])",
-    "from t | sort (-> 2)", "from [{a = 1}, b]", "from []", "from [{}]", "from t | select {}", "from t | aggregate {}", "from t | group {} (take 1)",
+    "from t | sort (-> 2)", "from t | select {x = (a | -> math.abs)}", "from t | aggregate {n = (a | -> sum)}", "from t | derive x = (a | -> math.round 2)",
+    "from t | filter (a | -> math.abs) > 1", "from t | select {x = (-> math.abs)}", "from t | select {x = (a | x -> math.abs)}", "from [{a = 1}, b]", "from []", "from [{}]", "from t | select {}", "from t | aggregate {}", "from t | group {} (take 1)",
     "from t | join t (==a) | select t.a", "from t | window rows:..  (derive x = sum a)", "from t | take 0", "from t | take ..", "from t | take 9223372036854775807..9223372036854775808",
     "from t | select 99999999999999999999", "from t | select 1e400", "from t | select 0x", "from t | select 0b2", "from t | select @2020-13-45", "from t | select @25:61", "from t | select 2hours + 1",
     "prql version:\"99\"\nfrom t", "prql version:\"x\"\nfrom t", "prql target:sql.any\nprql target:sql.any\nfrom t", "prql\nfrom t", "module m { from t }", "module m { let x = 1 }\nfrom m.x",
@@ -385,6 +479,213 @@ FAMILIES = {
 }
 
 
+# BYTE-OFFSET axis: one multi-byte character at every small byte offset of every text the compiler looks at by bytes (prefix tests,
+# slices, spans). § marks the place of the text in a site; a site = (name, template, base texts).
+MB_CHARS = ["é", "→", "日", "😀", "\u0301", "İ", "ß", "\u2028", "\ufeff"]    # 2, 3, 3, 4 bytes; combining mark; case-mapping changes the length; line separator; BOM
+MB_SUBST = ["é", "→", "😀"]          # also substituted for the character at the offset (the others are only inserted)
+MAX_OFFSET = 12
+_SQL_REL = ["SELECT a, b FROM tbl", " select * from tbl", "WITH x AS (SELECT 1) SELECT * FROM x"]
+_SQL_EXPR = ["COALESCE(a, b) + 1"]
+_TEXT = ["hello world abc"]
+_IDENT = ["column_name_1"]
+_COMMENT = ["a comment line here"]
+OFFSET_SITES = [
+    # s-string as a relation
+    ("sstring-from", 'from s"§"', _SQL_REL),
+    ("sstring-from-pipeline", 'from s"§" | select {a, b} | filter a > 1', _SQL_REL),
+    ("sstring-join", 'from t | join s"§" (==a)', _SQL_REL),
+    ("sstring-append", 'from t | select {a, b} | append s"§"', _SQL_REL),
+    ("sstring-let", 'let r = s"§"\nfrom r | select {a}', _SQL_REL),
+    ("sstring-from-interp", 'let f = x -> s"§ WHERE a = {x}"\nfrom (f 1)', _SQL_REL[:1]),
+    ("sstring-from-triple", 'from s"""§"""', _SQL_REL[:1]),
+    # s-string as an expression
+    ("sstring-expr", 'from t | select x = s"§"', _SQL_EXPR),
+    ("sstring-expr-filter", 'from t | filter s"§" > 1', _SQL_EXPR),
+    ("sstring-expr-interp-after", 'from t | select x = s"§{a}"', _SQL_EXPR),
+    ("sstring-expr-interp-before", 'from t | select x = s"{a}§"', _SQL_EXPR),
+    ("sstring-expr-sort-group", 'from t | group s"§" (sort s"§" | take 1)', _SQL_EXPR),
+    ("sstring-expr-aggregate", 'from t | aggregate {x = s"§"}', ["COUNT(DISTINCT a)"]),
+    # f-strings
+    ("fstring-before", 'from t | select x = f"§{a}"', _TEXT),
+    ("fstring-after", 'from t | select x = f"{a}§"', _TEXT),
+    ("fstring-only", 'from t | select x = f"§"', _TEXT),
+    # string literals and the functions that read them
+    ("string-dq", 'from t | select x = "§"', _TEXT),
+    ("string-sq", "from t | filter a == '§'", _TEXT),
+    ("string-triple", 'from t | select x = """§"""', _TEXT),
+    ("string-raw", 'from t | select x = r"§"', _TEXT),
+    ("string-text-fn", 'from t | filter (text.contains "§" a) || (text.starts_with "§" a) || (a ~= "§")', _TEXT),
+    ("string-like", 'from t | filter (a | like "§")', ["hello%wor_d"]),
+    ("string-date-format", 'from t | select x = (date.to_text "§" d)', ["%Y-%m-%d %H:%M:%S", "%A %B %-d %y"]),
+    ("string-from-text-csv", 'from_text format:csv "§"', ["a,b\\n1,2\\n3,4"]),
+    ("string-from-text-json", "from_text format:json '§'", ['[{"a": 1, "b": "x"}]', '{"columns": ["a"], "data": [[1]]}']),
+    ("string-version", 'prql version:"§"\nfrom t', ["0.13.2", "^0.13"]),
+    ("string-read-file", 'from (read_csv "§") | select a', ["dir/file.csv"]),
+    # identifiers
+    ("ident-from", "from §", _IDENT),
+    ("ident-select", "from t | select {§}", _IDENT),
+    ("ident-alias", "from t | derive § = a | sort §", _IDENT),
+    ("ident-quoted", "from t | select `§`", _IDENT + ["schema.tab.col"]),
+    ("ident-quoted-table", "from `§` | select a", ["dir/file.parquet", "schema.tab"]),
+    ("ident-path", "from t | select t.§", _IDENT),
+    ("ident-let", "let § = (from t)\nfrom § | select a", _IDENT),
+    ("ident-join-alias", "from t | join §=u (==a) | select §.b", _IDENT),
+    ("ident-func", "let § = x -> x + 1\nfrom t | select (§ a)", _IDENT),
+    ("ident-named-arg", "from t | sort §:1 a", _IDENT),
+    ("ident-std", "from t | select (§ a)", ["std.math.abs", "math.round"]),
+    ("ident-module", "module § { let y = 1 }\nfrom t | select §.y", ["my_module"]),
+    # comments
+    ("comment-line", "# §\nfrom t", _COMMENT),
+    ("comment-trailing", "from t # §\n| select a", _COMMENT),
+    ("comment-inside", "from t\n# §\n| select a", _COMMENT),
+    ("doc-comment", "#! §\nlet x = 1\nfrom t", _COMMENT),
+    ("comment-skip-directive", "# §\nfrom t", ["mssql:skip", "generic:test"]),
+    # target names (header)
+    ("target-header", "prql target:§\nfrom t | take 3", ["sql.postgres", "sql.any", "sql.mssql"]),
+    # date / time / number / parameter literals
+    ("literal", "from t | select x = §", ["@2020-01-01", "@10:20:30.123", "@2020-01-01T10:20:30+01:00", "1_000.5e10", "0x1F2E", "0b1010", "10days",
+                                          "$param_1", "1..10", "2hours", "true", "null"]),
+    # an error reported behind / around a multi-byte text: spans are byte offsets, messages are rendered by characters
+    ("error-next-line", 'let s = "§"\nfrom t | select )', _TEXT),
+    ("error-same-line-resolve", 'from t | select {x = "§", y = unknown_fn 1}', _TEXT),
+    ("error-same-line-parse", 'from t | select {x = "§", y = }', _TEXT),
+    ("error-after-comment", "# §\nfrom t | take \"x\"", _COMMENT),
+    ("error-at-ident", "from t | select {§ = 1, y = nope.z}", _IDENT),
+    ("error-unclosed", 'from t | filter "§" + (', _TEXT),
+    ("error-in-sstring", 'from t | select x = s"§{"', _SQL_EXPR),
+    ("error-type", 'from t | take "§"', _TEXT),
+    ("error-unknown-name", "from t | select (§ 1 2)", ["math.abz", "nosuch_function"]),
+]
+# request fields instead of program text
+OFFSET_REQ_SITES = [
+    ("target-option", lambda t: [{"op": "compile", "prql": "from t | take 3", "target": t}, {"op": "staged", "prql": "from t | take 3", "target": t},
+                                 {"op": "target_from_str", "name": t}], ["sql.postgres", "sql.any", "postgres"]),
+]
+
+
+def offset_texts(base):
+    """the base text with one multi-byte character inserted at / substituted for byte offset 0..MAX_OFFSET, and pure multi-byte texts"""
+    out = []
+    for ch in MB_CHARS:
+        for k in range(0, min(MAX_OFFSET, len(base)) + 1):
+            out.append(base[:k] + ch + base[k:])
+            if k < len(base) and ch in MB_SUBST:
+                out.append(base[:k] + ch + base[k + 1:])
+        for m in (1, 2, 3, 5):
+            out.append(ch * m)
+    out.append("日本語のテーブル")
+    return out
+
+
+def offset_requests(site, tpl, text, i, gen="byte-offset"):
+    """entry points for one program of the byte-offset axis; the dialects rotate with the running index"""
+    src = tpl.replace("§", text)
+    g = f"{gen} {site}"
+    return [{"op": "lex", "src": src, "_gen": g}, {"op": "fmt", "prql": src, "_gen": g},
+            {"op": "compile", "prql": src, "target": "sql." + DIALECTS[i % 12], "_gen": g},
+            {"op": "compile", "prql": src, "target": "sql." + DIALECTS[(i + 7) % 12], "format": True, "signature": True, "_gen": g},
+            {"op": "staged", "prql": src, "target": "sql." + DIALECTS[(i + 5) % 12], "_gen": g}]
+
+
+# SIZE axis: one token (or one run) of n characters, for every token kind the lexer knows and every place the formatter / the back-end
+# has to carry it through. Sizes straddle the powers of two, the u16 range and the formatter's line widths (50 and its x1.5 steps,
+# 16 x 50 = 800); consecutive sizes are never more than a factor 4 apart so the growth rule always has a partner.
+SIZES = [1, 49, 50, 51, 79, 80, 81, 255, 256, 257, 511, 512, 780, 799, 800, 801, 1023, 1024, 1025, 1200, 4095, 4096, 4097,
+         16384, 20000, 50000, 65535, 65536, 70000]
+COUNT_SIZES = [49, 50, 51, 100, 255, 256, 257, 400, 799, 800, 801, 1200]
+_X = lambda n, c="x": c * n
+SIZE_KINDS = {
+    # identifiers
+    "ident-select": lambda n: "from t | select {" + _X(n) + "}",
+    "ident-table": lambda n: "from " + _X(n),
+    "ident-alias": lambda n: "from t | derive " + _X(n) + " = a",
+    "ident-let": lambda n: "let " + _X(n) + " = (from t)\nfrom " + _X(n),
+    "ident-func-param": lambda n: "let f = " + _X(n) + " -> " + _X(n) + " + 1\nfrom t | select (f a)",
+    "ident-named-arg": lambda n: "let f = " + _X(n) + ":1 b -> b\nfrom t | select (f " + _X(n) + ":2 a)",
+    "ident-quoted": lambda n: "from t | select `" + _X(n) + "`",
+    "ident-path-segment": lambda n: "from t | select t." + _X(n),
+    "ident-module": lambda n: "module " + _X(n) + " { let y = 1 }\nfrom t | select " + _X(n) + ".y",
+    "ident-multibyte": lambda n: "from t | select {" + _X(n, "é") + "}",
+    "ident-join-alias": lambda n: "from t | join " + _X(n) + "=u (==a) | select " + _X(n) + ".b",
+    # string literals
+    "string-dq-filter": lambda n: 'from t | filter a == "' + _X(n) + '"',
+    "string-sq": lambda n: "from t | select x = '" + _X(n) + "'",
+    "string-triple": lambda n: 'from t | select x = """' + _X(n) + '"""',
+    "string-raw": lambda n: 'from t | select x = r"' + _X(n) + '"',
+    "string-toplevel-let": lambda n: 'let s = "' + _X(n) + '"\nfrom t | select {x = s}',
+    "string-call-arg": lambda n: 'from t | select x = (text.contains "' + _X(n) + '" a)',
+    "string-in-nested-tuple": lambda n: 'from t | select {a, b = {c = "' + _X(n) + '"}}',
+    "string-in-case": lambda n: 'from t | derive x = case [a == "' + _X(n) + '" => 1, true => 2]',
+    "string-in-array": lambda n: 'from t | filter (a | in ["' + _X(n) + '", "y"])',
+    "string-spaces": lambda n: 'from t | select x = "' + _X(n, " ") + '"',
+    "string-words": lambda n: 'from t | select x = "' + _X(n // 6 + 1, "lorem ") + '"',
+    "string-2byte": lambda n: 'from t | select x = "' + _X(n, "é") + '"',
+    "string-4byte": lambda n: 'from t | select x = "' + _X(n, "😀") + '"',
+    "string-combining": lambda n: 'from t | select x = "e' + _X(n, "\u0301") + '"',
+    "string-escaped-quotes": lambda n: 'from t | select x = "' + _X(n, '\\"') + '"',
+    "string-unterminated": lambda n: 'from t | select x = "' + _X(n),
+    "from-text-csv": lambda n: 'from_text format:csv "a,b\\n' + _X(n) + ',2"',
+    # interpolated strings
+    "fstring-text": lambda n: 'from t | select x = f"' + _X(n) + '{a}"',
+    "fstring-text-after": lambda n: 'from t | select x = f"{a}' + _X(n) + '"',
+    "sstring-expr": lambda n: 'from t | select x = s"' + _X(n) + '"',
+    "sstring-expr-interp": lambda n: 'from t | select x = s"{a} + ' + _X(n) + '"',
+    "sstring-relation": lambda n: 'from s"SELECT ' + _X(n) + ' FROM u"',
+    "sstring-relation-leading-space": lambda n: 'from s"' + _X(n, " ") + 'SELECT 1"',
+    "sstring-relation-not-select": lambda n: 'from s"' + _X(n) + '"',
+    "sstring-join": lambda n: 'from t | join s"SELECT ' + _X(n) + ' FROM u" (==a)',
+    "sstring-let": lambda n: 'let r = s"SELECT ' + _X(n) + ' FROM u"\nfrom r | select {a}',
+    # numbers, dates, params
+    "number-int": lambda n: "from t | select x = " + _X(n, "7"),
+    "number-float": lambda n: "from t | select x = 1." + _X(n, "7"),
+    "number-exp": lambda n: "from t | select x = 1e" + _X(n, "9"),
+    "number-underscores": lambda n: "from t | select x = 1" + _X(n // 2 + 1, "_0"),
+    "number-hex": lambda n: "from t | select x = 0x" + _X(n, "f"),
+    "number-with-unit": lambda n: "from t | select x = " + _X(n, "7") + "days",
+    "date-fraction": lambda n: "from t | select x = @2020-01-01T10:20:30." + _X(n, "1"),
+    "param": lambda n: "from t | filter a == $" + _X(n),
+    # comments, trivia
+    "comment-line": lambda n: "# " + _X(n, "c") + "\nfrom t",
+    "comment-trailing": lambda n: "from t # " + _X(n, "c") + "\n| select a",
+    "comment-in-pipeline": lambda n: "from t\n# " + _X(n, "c") + "\n| select a",
+    "doc-comment": lambda n: "#! " + _X(n, "c") + "\nlet x = 1\nfrom t",
+    "comment-multibyte": lambda n: "# " + _X(n, "日") + "\nfrom t",
+    "space-run": lambda n: "from t |" + _X(n, " ") + "select a",
+    "trailing-space-run": lambda n: "from t | select a" + _X(n, " "),
+    "line-wrap-run": lambda n: "from t" + _X(n, "\n\\ ") + "| select a",
+    # names outside the program text proper
+    "target-in-header": lambda n: "prql target:sql." + _X(n) + "\nfrom t",
+    "version-in-header": lambda n: 'prql version:"' + _X(n, "1") + '"\nfrom t',
+    # unknown names in error messages (the message quotes the name, suggestions measure edit distances)
+    "unknown-function": lambda n: "from t | select (" + _X(n) + " a)",
+    "unknown-std-member": lambda n: "from t | select (std." + _X(n) + " a)",
+    "unknown-named-arg": lambda n: "from t | sort " + _X(n) + ":1 a",
+}
+# number of items rather than length of one item, at the same width thresholds (the doubling FAMILIES cover the powers of two)
+COUNT_KINDS = {
+    "count-select-items": lambda n: "from t | select {" + ", ".join("a" for _ in range(n)) + "}",
+    "count-call-args": lambda n: "let f = " + " ".join(f"p{i}" for i in range(n)) + " -> p0\nfrom t | select (f " + " ".join("1" for _ in range(n)) + ")",
+    "count-inline-steps": lambda n: "from t" + " | filter a > 0" * n,
+    "count-array-items": lambda n: "from t | filter (a | in [" + ", ".join("1" for _ in range(n)) + "])",
+    "count-concat-strings": lambda n: "from t | select x = " + " + ".join('"s"' for _ in range(n)),
+    "count-fstring-parts": lambda n: 'from t | select x = f"' + "{a}" * n + '"',
+}
+
+
+# kinds that vary a request field other than the program text: name -> (entry points, n -> request fields)
+REQ_KINDS = {
+    "target-option": ([("compile", "prql"), ("staged", "prql")], lambda n: {"prql": "from t | select a", "target": "sql." + _X(n)}),
+    "target-option-multibyte": ([("compile", "prql")], lambda n: {"prql": "from t | select a", "target": "sql." + _X(n, "é")}),
+    "target-from-str": ([("target_from_str", "name")], lambda n: {"name": "sql." + _X(n)}),
+}
+ALLGEN = {**FAMILIES, **SIZE_KINDS, **COUNT_KINDS, **{k: v[1] for k, v in REQ_KINDS.items()}}
+
+
+def gen_src(f, n):
+    v = ALLGEN[f](n)
+    return v.get("prql", "") if isinstance(v, dict) else v
+
+
 def json_paths(v, path=()):
     yield path, v
     if isinstance(v, dict):
@@ -468,7 +769,10 @@ def run(ctx):
     ctx.rule = ("(i) every string of length <= 3 over a 30-character alphabet (thorough: also length 4 over its first 16 characters) through lex, tokens, pl, fmt, rq, compile, staged; (ii) every integration-test query and book example through "
                 "all entry points and all 12 dialects, seeded token-level mutants of them (delete / duplicate / swap / replace / insert "
                 "punctuation / multibyte insertion / truncate / splice) and 34 stress families on doubling sizes (nesting, chains, long "
-                "tuples, pipelines ...) up to depth 10^4 where time allows; (iii) PL and RQ JSON of the corpus, unchanged and mutated "
+                "tuples, pipelines ...) up to depth 10^4 where time allows; (ii-b) size axis: 58 single-token kinds (+3 target-name kinds) x 29 lengths 1..70000 and 6 item-count kinds x 12 counts "
+                "through lex, fmt, compile, staged (thorough: also pl, rq), one process per series, first hang ends the series; (i-b) byte-offset axis: 55 program sites (+ the target option) x base "
+                "texts x 9 multi-byte characters inserted at (3 of them also substituted for) byte offset 0..12, plus seeded compositions of 2-3 such characters, through "
+                "lex, fmt, compile (plain and format:true), staged under rotating dialects; (iii) PL and RQ JSON of the corpus, unchanged and mutated "
                 "(removed / renamed fields, type confusion, dangling and duplicated ids, emptied and re-arranged lists, grafted subtrees) "
                 "through json::to_pl / to_rq and the later stages under a random dialect. A case = (entry point, input, dialect); non-trivial = "
                 "the input got past the lexer (i), was accepted by the parser / deserializer (ii, iii).")
@@ -506,6 +810,31 @@ def run(ctx):
     for d_ in DIRECTED:
         reqs += src_reqs(d_, "directed")
     ex.run(reqs, "i-directed", timeout=300)
+
+    # ---- (i-b) byte-offset axis: multi-byte characters at byte offsets 0..12 of every text the compiler inspects ----------
+    t0 = time.time()
+    reqs, i = [], 0
+    for site, tpl, bases in OFFSET_SITES:
+        for base in bases:
+            for text in offset_texts(base):
+                reqs += offset_requests(site, tpl, text, i); i += 1
+    for site, mk, bases in OFFSET_REQ_SITES:
+        for base in bases:
+            for text in offset_texts(base):
+                reqs += [{**r, "_gen": f"byte-offset {site}"} for r in mk(text)]; i += 1
+    n_sys = i
+    # random second: two or three multi-byte characters at random small offsets, random site
+    for _ in range(6000 if thorough else 1500):
+        site, tpl, bases = rng.choice(OFFSET_SITES)
+        text = rng.choice(bases)
+        for _k in range(rng.choice([2, 2, 3])):
+            k = rng.randrange(0, min(MAX_OFFSET + 4, len(text)) + 1)
+            text = text[:k] + rng.choice(MB_CHARS) + text[k + rng.choice([0, 0, 1]):]
+        reqs += offset_requests(site, tpl, text, rng.randrange(12), gen="byte-offset-random"); i += 1
+    ex.run(reqs, "i-byte-offset", timeout=(600 if thorough else 150), nontrivial=lambda r, a: not ("err" in a and r["op"] == "lex"))
+    ctx.coverage_extra["byte_offset_axis"] = {"sites": [s_[0] for s_ in OFFSET_SITES + OFFSET_REQ_SITES], "characters": MB_CHARS, "offsets": f"0..{MAX_OFFSET}",
+                                              "systematic_programs": n_sys, "random_programs": i - n_sys, "requests": len(reqs), "seconds": round(time.time() - t0, 1)}
+    ctx.sample({"family": "byte-offset", "site": "sstring-from", "input": 'from s"SELECT→a, b FROM tbl"', "entry_points": ["lex", "fmt", "compile", "compile format:true", "staged"]})
 
     # ---- (ii) corpus, dialect sweep, mutants --------------------------------------------------
     t0 = time.time()
@@ -558,9 +887,52 @@ def run(ctx):
             n *= 2
         return f, op, ts, fails
 
+    def series_sizes(fo):
+        """one process per (kind, entry point), fed the whole size schedule in ascending order; the first request that does not
+        come back within T seconds (or kills the process) ends the series and is re-run alone for its class and CPU time"""
+        f, (op, key), sizes = fo
+        reqs = []
+        for n in sizes:
+            v = ALLGEN[f](n)
+            r = {"op": op, "_time": True, "_gen": f"family {f} n={n}"}
+            r.update(v if isinstance(v, dict) else {key: v})
+            reqs.append(r)
+        lines = [json.dumps({k: v for k, v in r.items() if k != "_gen"}) for r in reqs]
+        answers, rc = vlib._run_lines([vlib.VH], lines, T * len(lines), T)
+        ts, fails = {}, []
+        for i, (n, req) in enumerate(zip(sizes, reqs)):
+            if i >= len(answers):
+                a, dt = run_single(req, T)       # the request the process died / hung on
+                if "panic" in a:
+                    fails.append(("panic", req, a))
+                elif "crash" in a:
+                    if a["kind"] == "timeout":
+                        ts[n] = -dt
+                    fails.append((a["kind"], req, a))
+                else:
+                    ts[n] = dt                   # slow under load only: it does come back alone
+                    continue
+                break
+            try:
+                a = json.loads(answers[i])
+            except (RecursionError, ValueError):
+                a = {}
+            if "panic" in a:
+                fails.append(("panic", req, a))  # in-process panic: the series goes on
+                continue
+            ts[n] = (a.get("_cpu_ms") or 0) / 1000.0
+        return f, op, ts, fails
+
+    size_ops = ops + [("staged", "prql")] if thorough else [("lex", "src"), ("fmt", "prql"), ("compile", "prql"), ("staged", "prql")]
+    size_items = [(f, o, SIZES) for f in SIZE_KINDS for o in size_ops] + [(f, o, COUNT_SIZES) for f in COUNT_KINDS for o in size_ops]
+    size_items += [(f, o, SIZES) for f, (os_, _) in REQ_KINDS.items() for o in os_]
     import concurrent.futures
     with concurrent.futures.ThreadPoolExecutor(vlib.NCPU) as pool:
         results = list(pool.map(series, [(f, o) for f in FAMILIES for o in ops]))
+        t1 = time.time()
+        results += list(pool.map(series_sizes, size_items))
+        ctx.coverage_extra["size_axis"] = {"kinds": sorted(SIZE_KINDS) + sorted(REQ_KINDS), "sizes": SIZES, "count_kinds": sorted(COUNT_KINDS), "count_sizes": COUNT_SIZES,
+                                           "entry_points": [o for o, _ in size_ops], "series": len(size_items), "seconds": round(time.time() - t1, 1)}
     times, slow = {}, []
     for f, op, ts, fails in results:
         times[(f, op)] = ts
@@ -571,7 +943,7 @@ def run(ctx):
             ctx.count(f"ii-families: {kind}")
             if kind == "panic":
                 ex.outcomes["panic"] += 1
-                ex.record_failure(panic_class(a), f"{op} panics on family {f}: {a['panic'][:160]} (at {a.get('at')}, in {a.get('fn')})", req, a)
+                ex.record_failure(ex.pclass(a, op), f"{op} panics on family {f}: {a['panic'][:160]} (at {a.get('at')}, in {a.get('fn')})", req, a)
             elif kind == "timeout":
                 pass        # judged by the growth rule below
             else:
@@ -580,13 +952,16 @@ def run(ctx):
                 ex.record_failure(f"{kind}:{stage or STAGE_OF[op]}", f"{op} on family {f}: process {kind} in stage {stage} ({a.get('stderr', '')[:120]})", req, a)
         # growth in CPU time: t(4n) / t(n) > 100 with t(4n) > 2 s (for a killed request: the CPU it had burnt when killed);
         # also across one doubling when it is that steep. A cubic algorithm gives 64 (8) and start-up time only lowers the ratio.
+        # ONE token of at most 1200 characters (SIZE_KINDS) that is killed at the hard timeout is compared with the next smaller size
+        # whatever the ratio of the sizes: nothing polynomial in the length of a token takes milliseconds at n and > 100x that at <= 1200.
         ns = sorted(ts)
         for n_ in ns:
             big = abs(ts[n_])
             if big <= 2.0:
                 continue
+            flat_kill = ts[n_] < 0 and n_ <= 1200 and (f in SIZE_KINDS or f in REQ_KINDS)
             for m_ in ns:
-                if m_ * 2 <= n_ <= m_ * 4 and ts[m_] >= 0 and big / max(ts[m_], 1e-3) > 100:
+                if (m_ * 2 <= n_ <= m_ * 4 or (flat_kill and m_ < n_)) and ts[m_] >= 0 and big / max(ts[m_], 1e-3) > 100:
                     slow.append((f, op, m_, ts[m_], n_, ts[n_]))
                     break
     seen_slow = set()
@@ -597,13 +972,14 @@ def run(ctx):
             tp = times.get((f, "pl"), {}).get(n_)
             if any(s[0] == f and s[1] == "pl" for s in slow) or (tp is not None and (tp < 0 or tp >= 0.5 * abs(tn))):
                 stage = "parser"
-        cid = f"superpolynomial-time:{stage}"
+        cid = slow_class(stage, gen_src(f, n_))
         if (cid, f) in seen_slow:
             continue
         seen_slow.add((cid, f))
         key = "src" if op == "lex" else "prql"
+        v = ALLGEN[f](n_)
         ex.record_failure(cid, f"{op} on family {f}: {tm:.4f}s CPU at n={m_} but {'no answer within %gs (%.1fs CPU burnt)' % (T, -tn) if tn < 0 else '%.2fs CPU' % tn} at n={n_}",
-                          {"op": op, key: FAMILIES[f](n_), "_gen": f"family {f} n={n_}"}, {"crash": "slow", "t_small": tm, "t_big": tn})
+                          {"op": op, **(v if isinstance(v, dict) else {key: v}), "_gen": f"family {f} n={n_}"}, {"crash": "slow", "t_small": tm, "t_big": tn})
     ctx.coverage_extra["families"] = {
         "hard_timeout_s": T,
         "sizes_reached": {f"{f}/{op}": max(ts) for (f, op), ts in times.items() if ts},
@@ -646,6 +1022,7 @@ def run(ctx):
     # ---- verdict -------------------------------------------------------------------------------
     ctx.coverage_extra["outcomes"] = ex.outcomes
     ctx.coverage_extra["failure_classes"] = dict(sorted(ex.classes.items()))
+    ctx.coverage_extra["class_messages"] = {c: dict(sorted(m.items())) for c, m in sorted(ex.messages.items())}
     ctx.coverage_extra["class_witnesses"] = {c: {"request": {k: (v if not isinstance(v, str) or len(v) < 600 else v[:600] + "…") for k, v in w[1].items()},
                                                  "answer": {k: w[2].get(k) for k in ("panic", "at", "fn", "crash") if k in w[2]}}
                                              for c, w in sorted(ex.witness.items())}
@@ -665,12 +1042,13 @@ def replay(obj):
             m = re.match(r"family (\S+) n=(\d+)", r.get("gen") or "")
             if m:
                 key = "src" if "src" in req else "prql"
-                req = {"op": req["op"], key: FAMILIES[m.group(1)](int(m.group(2)))}
+                v = ALLGEN[m.group(1)](int(m.group(2)))
+                req = {"op": req["op"], **(v if isinstance(v, dict) else {key: v})}
             else:
                 return 0
         req = {k: v for k, v in req.items() if not k.startswith("_")}
         a = vh_batch([req])[0]
         print(json.dumps(a)[:3000])
         if "crash" in a:
-            print(confirm_crash(req))
+            print(json.dumps(run_single(req, 60)[0])[:600])
     return 0
